@@ -163,7 +163,10 @@ SPECS = {
         "coq_files": ["Lib/SortedX.v", "Model/Query.v", "Proofs/Query.v", "Proofs/QueryPool.v", "Run/QueryRun.v"],
         "runner_vo": "Run/QueryRun.v",
         "harness": [
-            {"component": "query", "args": [], "quick": 96, "thorough": 1600},
+            {"component": "query", "args": [
+            # service level: real find_node lookups through the real Service loop, the harness plays the handler (monitor only)
+            {"component": "svcq", "args": [], "quick": 200, "thorough": 3000, "correspondence": False},
+        ], "quick": 96, "thorough": 1600},
         ],
         "trusted_base": QUERY_TB,
         "assumptions": [
@@ -178,7 +181,10 @@ SPECS = {
         "coq_files": ["Lib/SortedX.v", "Model/Query.v", "Proofs/Query.v", "Proofs/QueryPool.v", "Run/QueryRun.v"],
         "runner_vo": "Run/QueryRun.v",
         "harness": [
-            {"component": "query", "args": [], "quick": 96, "thorough": 1600},
+            {"component": "query", "args": [
+            # service level: real find_node lookups through the real Service loop, the harness plays the handler (monitor only)
+            {"component": "svcq", "args": [], "quick": 200, "thorough": 3000, "correspondence": False},
+        ], "quick": 96, "thorough": 1600},
         ],
         "trusted_base": QUERY_TB,
         "assumptions": [
